@@ -6,8 +6,10 @@
 //   a <cid> <act>             append <act> to the script of coroutine <cid>
 //   m <act>                   ordinary code performs <act> now
 //   end
-// acts: wake:<d|a|r>:<ids> detach:<d|a|r>:<id> gather:<d|a>:<ids> park parkn pause swap start:<id> call:<id>
-//       join:<id> end enter leave
+// acts: wake:<d|a|r|x>:<ids> detach:<d|a|r|x>:<id> gather:<d|a>:<ids> park parkn pause swap start:<id> call:<id>
+//       join:<id> end enter leave leavex
+//   mode x: the suspend point is held in a local and destroyed by stack unwinding (an exception leaves the block and is
+//   caught outside); leavex: the callback of install_queue_and_call ends by throwing (caught outside the call)
 #include "common.h"
 #include <cocls/async.h>
 #include <cocls/future.h>
@@ -16,7 +18,7 @@
 
 using namespace cocls;
 
-enum Kind { WAKE, PARK, PARKN, PAUSE, SWAP, START, CALL, JOIN, END, ENTER, LEAVE, BAD };
+enum Kind { WAKE, PARK, PARKN, PAUSE, SWAP, START, CALL, JOIN, END, ENTER, LEAVE, LEAVEX, BAD };
 
 struct Act {
     Kind k = BAD;
@@ -52,12 +54,12 @@ static Act parse_act(const std::string &tok) {
     if ((k == "wake" || k == "gather") && (p.size() == 2 || p.size() == 3)) {
         a.k = WAKE;
         a.rev = k == "gather";
-        a.mode = p[1] == "a" ? 'a' : (p[1] == "r" && !a.rev ? 'r' : 'd');
+        a.mode = p[1] == "a" ? 'a' : (p[1] == "r" && !a.rev ? 'r' : (p[1] == "x" && !a.rev ? 'x' : 'd'));
         if (p.size() == 3)
             for (auto &x : split_on(p[2], ',')) { int v; if (to_nat(x, v)) a.ids.push_back(v); }
     } else if (k == "detach" && p.size() == 3) {
         a.k = WAKE;
-        a.mode = p[1] == "a" ? 'a' : (p[1] == "r" ? 'r' : 'd');
+        a.mode = p[1] == "a" ? 'a' : (p[1] == "r" ? 'r' : (p[1] == "x" ? 'x' : 'd'));
         for (auto &x : split_on(p[2], ',')) { int v; if (to_nat(x, v)) a.ids.push_back(v); }
     } else if (p.size() == 1 && k == "park") a.k = PARK;
     else if (p.size() == 1 && k == "parkn") a.k = PARKN;
@@ -66,6 +68,7 @@ static Act parse_act(const std::string &tok) {
     else if (p.size() == 1 && k == "end") a.k = END;
     else if (p.size() == 1 && k == "enter") a.k = ENTER;
     else if (p.size() == 1 && k == "leave") a.k = LEAVE;
+    else if (p.size() == 1 && k == "leavex") a.k = LEAVEX;
     else if (p.size() == 2 && (k == "start" || k == "call" || k == "join")) {
         if (to_nat(p[1], a.d)) a.k = k == "start" ? START : (k == "call" ? CALL : JOIN);
     }
@@ -143,6 +146,15 @@ static void drop_via_resume(suspend_point<void> &sp) {
     }
 }
 
+// the suspend point lives in a local of a block that is left by an exception: destroyed by stack unwinding
+static void drop_by_unwinding(const std::vector<int> &ids) {
+    try {
+        suspend_point<void> sp = collect(ids);
+        throw vh::test_exc(1);
+    } catch (const vh::test_exc &) {
+    }
+}
+
 struct swap_pause : std::suspend_always {
     std::coroutine_handle<> await_suspend(std::coroutine_handle<> h) noexcept { return coro_queue::swap_coroutine(h); }
 };
@@ -178,6 +190,8 @@ static async<void> body(int id) {
                         co_await sp;
                         if (will) resumed(id);
                     }
+                } else if (a.mode == 'x') {
+                    drop_by_unwinding(a.ids);
                 } else {
                     suspend_point<void> sp = collect(a.ids);
                     if (a.mode == 'a') {
@@ -290,6 +304,8 @@ static void main_act(const Act &a) {
         ++G->depth;
         if (a.rev) {
             suspend_point<void> sp = coro_queue::create_suspend_point([&] { (void)collect(a.ids); });
+        } else if (a.mode == 'x') {
+            drop_by_unwinding(a.ids);
         } else {
             suspend_point<void> sp = collect(a.ids);
             if (a.mode == 'r') drop_via_resume(sp);
@@ -309,13 +325,13 @@ static void main_act(const Act &a) {
 
 static void print_line(const std::string &head) { vh::emit(head, G->evs); }
 
-// executes lines until `leave` (returns false) or `end`/EOF (returns true)
-static bool run_lines(std::istream &in, int level) {
+// executes lines until `leave` (returns 0), `leavex` (returns 2) or `end`/EOF (returns 1)
+static int run_lines(std::istream &in, int level) {
     std::string line;
     while (std::getline(in, line)) {
         auto w = vh::split(line);
         if (w.empty()) continue;
-        if (w[0] == "end") return true;
+        if (w[0] == "end") return 1;
         if (w[0] == "a" && w.size() == 3) {
             int c;
             Act a = parse_act(w[2]);
@@ -329,20 +345,25 @@ static bool run_lines(std::istream &in, int level) {
             Act a = parse_act(w[1]);
             if (a.k == BAD) { std::cout << "bad-op\n"; continue; }
             if (a.k == ENTER) {
-                bool ended = false;
+                int how = 1;
                 ++G->depth;
-                coro_queue::install_queue_and_call([&] {
-                    print_line("m enter a=" + std::to_string((int)coro_queue::is_active()));
-                    ended = run_lines(in, level + 1);
-                });
+                try {
+                    coro_queue::install_queue_and_call([&] {
+                        print_line("m enter a=" + std::to_string((int)coro_queue::is_active()));
+                        how = run_lines(in, level + 1);
+                        // the callback ends by throwing: the trailer of install_queue_and_call runs during unwinding
+                        if (how == 2) throw vh::test_exc(2);
+                    });
+                } catch (const vh::test_exc &) {
+                }
                 --G->depth;
-                if (ended) return true;  // events of the trailer are printed with the `end` line
-                print_line("m leave a=" + std::to_string((int)coro_queue::is_active()));
+                if (how == 1) return 1;  // events of the trailer are printed with the `end` line
+                print_line(std::string(how == 2 ? "m leavex a=" : "m leave a=") + std::to_string((int)coro_queue::is_active()));
                 continue;
             }
-            if (a.k == LEAVE) {
-                if (level > 0) return false;
-                print_line("m leave a=" + std::to_string((int)coro_queue::is_active()));
+            if (a.k == LEAVE || a.k == LEAVEX) {
+                if (level > 0) return a.k == LEAVE ? 0 : 2;
+                print_line("m " + w[1] + " a=" + std::to_string((int)coro_queue::is_active()));
                 continue;
             }
             main_act(a);
@@ -351,7 +372,7 @@ static bool run_lines(std::istream &in, int level) {
         }
         std::cout << "bad-op\n";
     }
-    return true;
+    return 1;
 }
 
 static void run_case(std::istream &in, int via) {
